@@ -149,7 +149,7 @@ def gen_family(rng, max_classes=5, focus=None) -> dict:
             if focus == "kwargs":
                 extra = rng.choice([["orjson"], ["orjson"], ["msgpack"], ["msgpack", "orjson"], ["toml"], ["json"], []])
             mix = extra or mix
-            dsup = (not generic) and rng.random() < (0.65 if focus == "kwargs" else 0.35)
+            dsup = rng.random() < (0.65 if focus == "kwargs" else 0.35)
         parent = None
         if not generic and i > 0 and rng.random() < 0.2 and focus != "spec":
             cands = [j for j in range(i) if not classes[j]["generic"] and classes[j]["kind"] == kind
